@@ -215,6 +215,9 @@ def server_cfg(c):
     # host-key types the server advertises but never presents: it closes the probe connection instead of answering
     for t in c.get('withheld', ()):
         cfg['hostkeys'].pop(t, None)
+    # host-key blobs given byte for byte (malformed ones: the probe fails and nothing is measured for that type)
+    for t, blob in (c.get('raw_hostkeys') or {}).items():
+        cfg['hostkeys'][t] = blob
     return cfg
 
 
